@@ -1,10 +1,11 @@
 """C20 - malformed data, horizons and settings are rejected, never silently mis-handled."""
-from harness.core import cbool, clist, copt, cz, czlist
+from harness.core import cbool, clist, copt, cstr, cz, czlist
 
 ID = "C20"
 MODEL_TARGETS = ["C20/Cases.vo"]
-PROOF_TARGETS = ["C20/Gen.vo", "C20/Bridge.vo", "C20/Proofs.vo"]
-OBLIGATION_FILES = ["C20/Bridge.v"]
+PROOF_TARGETS = ["C20/Gen.vo", "C20/Bridge.vo", "C20/GenV.vo", "C20/BridgeV.vo", "C20/GenC.vo",
+                 "C20/BridgeC.vo", "C20/Proofs.vo", "C20/ProofsC.vo"]
+OBLIGATION_FILES = ["C20/Bridge.v", "C20/BridgeV.v", "C20/BridgeC.v"]
 PROPS_FILE = "C20/Props.v"
 SHARD = 500
 PER_CASE_TIMEOUT = 120
@@ -40,8 +41,12 @@ MODELLED = [
 
 
 def translate(repo):
-    from translator import validate
-    return validate.translate(repo)
+    """Gen.v (settings validators, _set_fh), GenV.v (data / cv / composite / name validators,
+    NaiveForecaster's rules), GenC.v (validation chains of the entry points); all fail closed."""
+    from translator import chains_c20, validate
+    files = validate.translate_all(repo)
+    files.update(chains_c20.translate(repo))
+    return files
 
 
 # ------------------------------------------------------------------------------------------------
@@ -390,6 +395,7 @@ def gen_cases(rng, tier):
         cases.append(c)
     for _ in range(40 * k):
         cases.append({"kind": "fh", "f": rand_fh(rng)})
+    cases += gen_validator_cases(rng, k)
     for e in MATRIX_ENTRIES:
         for c in MATRIX_CLASSES:
             if (e, c) in MATRIX_SKIP:
@@ -432,6 +438,61 @@ def _mk_y(d, start=0):
     if c == "array2":
         return np.column_stack([vals, vals])
     return list(vals)
+
+
+def _describe(o):
+    """The abstract description (`series` of ModelV.v) of an actual data argument."""
+    import hashlib
+    import numpy as np
+    import pandas as pd
+    if isinstance(o, pd.Index):
+        idx, cont = o, "index"
+    elif isinstance(o, pd.Series):
+        idx, cont = o.index, "series"
+    elif isinstance(o, pd.DataFrame):
+        idx, cont = o.index, "frame"
+    elif isinstance(o, np.ndarray):
+        return {"cont": "array1" if o.ndim == 1 else "array2", "len": int(o.shape[0]),
+                "sorted": bool(o.ndim != 1 or np.all(np.diff(o) >= 0)), "idx": "int",
+                "lab": hashlib.md5(repr(o.tolist()).encode()).hexdigest()[:10], "const": False}
+    elif isinstance(o, list):
+        return {"cont": "list", "len": len(o), "sorted": True, "idx": "int", "lab": "list",
+                "const": False}
+    else:
+        raise AssertionError(type(o))
+    kind = {pd.RangeIndex: "range", pd.PeriodIndex: "period", pd.DatetimeIndex: "datetime",
+            pd.Index: "int"}.get(type(idx), "other")
+    vals = o.values if cont in ("series", "frame") else None
+    return {"cont": cont, "len": int(len(idx)), "sorted": bool(idx.is_monotonic_increasing),
+            "idx": kind, "lab": hashlib.md5(repr([str(x) for x in idx]).encode()).hexdigest()[:10],
+            "const": bool(cont == "series" and len(o) > 0 and np.all(vals == vals[0]))}
+
+
+def _fh_abs(fh):
+    """A raw horizon argument as the `fh_input` encoding of the cases."""
+    if fh is None:
+        return ["missing"]
+    if isinstance(fh, bool):
+        return ["scalar", ["bool", fh]]
+    if isinstance(fh, int):
+        return ["scalar", ["int", fh]]
+    if isinstance(fh, float):
+        from fractions import Fraction
+        q = Fraction(fh)
+        return ["scalar", ["float", q.numerator, q.denominator]]
+    if isinstance(fh, str):
+        return ["scalar", ["str"]]
+    out = []
+    for v in fh:
+        if isinstance(v, float):
+            from fractions import Fraction
+            q = Fraction(v)
+            out.append(["float", q.numerator, q.denominator])
+        elif isinstance(v, str):
+            out.append(["str"])
+        else:
+            out.append(["int", int(v)])
+    return ["list", out]
 
 
 def _verdict(f, fitted_of=None):
@@ -593,6 +654,8 @@ def run_impl(case):
         return r
     if k == "matrix":
         return _matrix(case)
+    if k == "validator":
+        return _validator(case)
     raise AssertionError(k)
 
 
@@ -635,7 +698,7 @@ def _matrix(case):
         X = pd.DataFrame({"x": np.arange(n - 1, dtype=float)}, index=good.index[: n - 1])
     fh = {"fh_dup": [1, 2, 2], "fh_empty": [], "fh_frac": [1, 2.5], "fh_str": "a",
           "fh_float": 1.5}.get(cls, [1, 2])
-    holder = {}
+    holder = {"args": (y, X)}
 
     def fit(fc):
         holder["fc"] = fc
@@ -654,12 +717,14 @@ def _matrix(case):
             fc = NaiveForecaster().fit(good.iloc[: n - 4], pd.DataFrame(
                 {"x": np.arange(n - 4, dtype=float)}, index=good.index[: n - 4]), fh=[1])
             holder["upd"] = fc
+        holder["args"] = (ynew, Xn)
         fc.update(ynew, Xn, update_params=False)
         return True
 
     def updpred():
         fc = NaiveForecaster().fit(good.iloc[: n - 5], fh=[1])
         ynew = good.iloc[n - 5:] if y is good else y
+        holder["args"] = (ynew, None)
         return len(fc.update_predict(ynew, SlidingWindowSplitter(fh=[1], window_length=1)))
     cv = ExpandingWindowSplitter(fh=fh, initial_window=5)
     table = {
@@ -688,6 +753,8 @@ def _matrix(case):
     }
     r = _verdict(table[e])
     r.pop("result", None)
+    ya, Xa = holder["args"]
+    r["args"] = {"y": _describe(ya), "X": None if Xa is None else _describe(Xa), "fh": _fh_abs(fh)}
     if "fc" in holder:
         r["fitted"] = bool(holder["fc"].is_fitted)
     if "upd" in holder:
@@ -733,6 +800,8 @@ def _expect(case):
         return ok
     if k == "matrix":
         return case["cls"] == "valid"
+    if k == "validator":
+        return _expect_validator(case)
     if k == "fh":
         return _fh_model(case["f"]) is not None
     if k == "series":
@@ -804,10 +873,11 @@ def oracle(case, out):
     exp = _expect(case)
     if exp is not None:
         if exp and v != "accept":
-            return "valid-input-rejected: %s %s: %s" % (k, case.get("entry", ""), out.get("exc"))
+            return "valid-input-rejected: %s %s: %s" % (k, case.get("entry", case.get("fn", "")),
+                                                         out.get("exc"))
         if not exp and v == "accept":
             return "malformed-input-accepted: %s %s %s" % (
-                k, case.get("entry", ""), case.get("cls", case.get("v", "")))
+                k, case.get("entry", case.get("fn", "")), case.get("cls", case.get("v", "")))
     if k == "matrix" and case["entry"] == "naive.update" and v == "reject":
         if out.get("cutoff_after") != out.get("cutoff_before"):
             return "state-changed-by-rejected-update: cutoff %s -> %s" % (
@@ -870,11 +940,591 @@ def shrink(case):
             yield d
 
 
+
+# ------------------------------------------------------------------------------------------------
+# entry points and validators on the abstract descriptions of ModelV.v / Chain.v
+
+IDXK = {"int": "KInt64", "range": "KRange", "period": "KPeriod", "datetime": "KDatetime",
+        "other": "KOther", "ndarray": "KNdarray"}
+FRESH = "{| e_fitted := false; e_fh := None; e_log := [] |}"
+
+
+def _fitted_state(fh_steps):
+    return "{| e_fitted := true; e_fh := %s; e_log := [] |}" % copt(fh_steps, czlist)
+
+
+def _series(d, labs):
+    """`series` term; `labs` maps label sequences to identifiers (shared by one case)."""
+    lab = labs.setdefault(d["lab"], len(labs))
+    return ("{| sd := {| cont := %s; slen := %s; ssorted := %s |}; sidx := %s; slab := %s; "
+            "sconst := %s |}" % (CONT[d["cont"]], cz(d["len"]), cbool(d["sorted"]), IDXK[d["idx"]],
+                                 cz(lab), cbool(d.get("const", False))))
+
+
+def _ixdesc(d, labs):
+    lab = labs.setdefault(d["lab"], len(labs))
+    return "{| ik := %s; ilen := %s; isorted := %s; ilab := %s |}" % (
+        IDXK[d["idx"]], cz(d["len"]), cbool(d["sorted"]), cz(lab))
+
+
+def _member(j, kind):
+    return "({| nid := %d; has_dunder := false |}, %s)" % (2 * j, kind)
+
+
+CI_DEFAULT = [
+    ("a_y", None), ("a_X", "None"), ("a_fh", "None"), ("a_fh_relative", "true"), ("a_cv", "None"),
+    ("a_ret_int", "false"), ("a_update_params", "false"), ("a_sizes_given", "false"),
+    ("a_strategy", '"refit"%string'), ("a_scitype", '"infer"%string'), ("a_infer_ok", "true"),
+    ("a_scoring", "None"), ("c_required_fh", "false"), ("c_strategy", "SLast"),
+    ("c_sp", "(PInt 1)"), ("c_wl", "PNone"), ("c_step", "(PInt 1)"), ("c_iw", "PNone"),
+    ("c_sww", "true"), ("c_fh", "(FhScalar (PInt 1))"), ("c_cutoffs_arr", "true"),
+    ("c_cutoffs", "[]"), ("c_forecasters", "FcsNone"), ("c_steps", "[]"), ("c_params", "[]"),
+    ("c_aggfunc", '"mean"%string'), ("c_cv", "CvOther"), ("c_scoring", "None"),
+    ("c_refit", "true"),
+]
+
+
+def _ci(**kw):
+    d = dict(CI_DEFAULT)
+    for k in kw:
+        assert k in d, k
+    d.update(kw)
+    return "{| " + "; ".join("%s := %s" % (k, d[k]) for k, _ in CI_DEFAULT) + " |}"
+
+
+def _matrix_model(case, out):
+    """(stages, call_in fields, compare the fitted flag?) for an entry of the matrix: which
+    regenerated chains run, on which object, with which configuration (as built in _matrix)."""
+    a = out["args"]
+    labs = {}
+    base = dict(a_y=_series(a["y"], labs),
+                a_X="None" if a["X"] is None else "(Some %s)" % _series(a["X"], labs),
+                a_fh="(Some %s)" % fh_coq(a["fh"]))
+    fh = fh_coq(a["fh"])
+    e = case["entry"]
+    sliding1 = dict(c_fh="(FhList [PInt 1])", c_wl="(PInt 1)", c_step="(PInt 1)", c_iw="PNone",
+                    c_sww="true")
+    if e == "poly.fit":
+        return [(["E_poly_fit"], FRESH)], base, True
+    if e == "theta.fit":
+        return [(["E_theta_fit"], FRESH)], dict(base, c_sp="(PInt 1)"), True
+    if e == "ens.fit":
+        return [(["E_ens_fit"], FRESH)], dict(
+            base, c_forecasters="(FcsList [%s; %s])" % (_member(1, "MForecaster"),
+                                                       _member(2, "MForecaster")),
+            c_params="[200; 202; 204]"), True
+    if e == "pipe.fit":
+        return [(["E_ttf_fit"], FRESH)], dict(
+            base, c_steps="[%s; %s]" % (_member(1, "MTransformer"), _member(2, "MForecaster")),
+            c_params="[200]"), True
+    if e == "reduce.fit":
+        return [(["E_reducer_fit", "E_multioutput_fit", "E_sliding_window_transform"], FRESH)], dict(
+            base, c_required_fh="true", c_wl="(PInt 3)", c_step="(PInt 1)"), False
+    if e == "naive.update":
+        return [(["E_update"], _fitted_state([1]))], dict(base, a_fh="None"), False
+    if e == "update_predict":
+        return [(["E_bw_update_predict", "E_split", "E_window_split"], _fitted_state([1]))], dict(
+            base, a_fh="None", a_cv="(Some (CvSplitter true true))", **sliding1), False
+    if e == "naive.predict":
+        return [(["E_predict"], _fitted_state(None))], base, False
+    if e == "evaluate":
+        return [(["E_evaluate", "E_split", "E_window_split"], FRESH)], dict(
+            base, a_cv="(Some (CvSplitter true true))", c_fh=fh, c_wl="(PInt 5)"), False
+    if e == "gscv.fit":
+        return [(["E_gscv_fit"], FRESH), (["E_naive_fit"], FRESH)], dict(
+            base, c_cv="(CvSplitter true true)"), False
+    if e == "expanding.split":
+        return [(["E_split", "E_window_split"], FRESH)], dict(base, c_fh=fh, c_wl="(PInt 5)"), False
+    if e == "single.split":
+        return [(["E_split", "E_single_split"], FRESH)], dict(base, c_fh=fh, c_wl="(PInt 4)"), False
+    if e == "cutoff.split":
+        return [(["E_split", "E_cutoff_split"], FRESH)], dict(
+            base, c_fh=fh, c_wl="(PInt 3)", c_cutoffs="[6; 8]"), False
+    if e == "tts_fh":
+        return [(["E_tts"], FRESH)], base, False
+    return None
+
+
+def _stages(st):
+    return clist(["(%s, %s)" % (clist(es), s0) for es, s0 in st])
+
+
+def _matrix_coq(case, out, acc):
+    if "args" not in out:
+        return None
+    m = _matrix_model(case, out)
+    if m is None:
+        return None
+    st, fields, cmp_fit = m
+    fit = "None"
+    if cmp_fit and "fitted" in out:
+        fit = "(Some %s)" % cbool(out["fitted"])
+    return "TRun %s %s %s %s" % (_stages(st), _ci(**fields), acc, fit)
+
+
+# ---- direct calls of the regenerated validators ---------------------------------------------------
+
+VAL_STR = {"eval_strategy": (["refit", "update"], ["Refit", "fit", "updating", ""]),
+           "reduce_strategy": (["direct", "recursive", "multioutput", "dirrec"],
+                               ["Direct", "multi", "rec", ""]),
+           "scitype": (["infer", "tabular-regressor", "time-series-regressor"],
+                       ["tabular", "regressor", ""]),
+           "aggfunc": (["median", "mean", "min", "max"], ["sum", "Mean", "avg", ""])}
+EITS = [None, None, "int", "range", "period"]
+
+
+def _rand_data(rng, n_lo=0, n_hi=6, conts=("series", "series", "frame", "array1", "array2", "list"),
+               kinds=("int", "range", "period", "datetime", "other")):
+    n = rng.choice([0, 1, 1, rng.randint(2, n_hi)]) if n_lo == 0 else rng.randint(n_lo, n_hi)
+    return {"cont": rng.choice(conts), "n": n, "idx": rng.choice(kinds),
+            "sorted": rng.random() < 0.7, "start": rng.choice([0, 0, 3])}
+
+
+def gen_validator_cases(rng, k):
+    cases = []
+
+    def add(fn, **kw):
+        cases.append(dict({"kind": "validator", "fn": fn}, **kw))
+    for _ in range(36 * k):
+        d = _rand_data(rng, conts=("index",), kinds=("int", "range", "period", "datetime", "other",
+                                                      "ndarray"))
+        add("check_time_index", d=d, allow_empty=rng.random() < 0.4, eit=rng.choice(EITS))
+    for _ in range(40 * k):
+        add("check_series", d=_rand_data(rng), univariate=rng.random() < 0.5,
+            allow_empty=rng.random() < 0.4, allow_numpy=rng.random() < 0.5, eit=rng.choice(EITS))
+    for _ in range(16 * k):
+        d = _rand_data(rng)
+        # (allow_constant=False on an empty series evaluates y.iloc[0]: IndexError, no verdict)
+        add("check_y", d=d, allow_empty=rng.random() < 0.4,
+            allow_constant=rng.random() < 0.6 or d["n"] == 0, constant=rng.random() < 0.4)
+        add("check_X", d=_rand_data(rng), allow_empty=rng.random() < 0.4,
+            univariate=rng.random() < 0.4)
+    for _ in range(40 * k):
+        n = rng.choice([0, 1, 4, 6])
+        kind = rng.choice(["int", "range", "period", "datetime"])
+        y = {"cont": rng.choice(["series"] * 4 + ["frame", "array1"]), "n": n, "idx": kind,
+             "sorted": rng.random() < 0.85, "start": 0}
+        how = rng.choice(["none", "same", "same", "same_frame", "shifted", "shorter", "longer",
+                          "unsorted", "array", "other_kind", "empty", "list"])
+        X = None
+        if how != "none":
+            X = {"cont": "frame" if how != "same" else rng.choice(["frame", "series"]), "n": n,
+                 "idx": kind, "sorted": y["sorted"], "start": 0}
+            if how == "shifted":
+                X["start"] = 1
+            elif how == "shorter":
+                X["n"] = max(0, n - 1)
+            elif how == "longer":
+                X["n"] = n + 1
+            elif how == "unsorted":
+                X["sorted"] = not y["sorted"]
+            elif how == "array":
+                X["cont"] = "array2"
+            elif how == "list":
+                X["cont"] = "list"
+            elif how == "other_kind":
+                X["idx"] = "range" if kind == "int" else "int"   # same labels in another index class
+            elif how == "empty":
+                X["n"] = 0
+        fn = rng.choice(["check_y_X", "check_y_X", "check_equal_time_index"])
+        if fn == "check_equal_time_index" and (how in ("array", "list") or y["cont"] == "array1"):
+            fn = "check_y_X"       # `.index` of an array / list is an AttributeError, not a verdict
+        add(fn, d=y, X=X, how=how, allow_empty=rng.random() < 0.4)
+    for cv in ("sliding_sww", "sliding_nosww", "expanding_nosww", "single", "cutoff", "int", "kfold",
+               "none"):
+        for enforce in (False, True):
+            add("check_cv", cv=cv, enforce=enforce)
+    for v in BAD_SETTINGS + [["int", 1], ["int", 12]]:
+        add("check_sp", v=v)
+    for sc in ("none", "metric", "lambda", "str", "int"):
+        add("check_scoring", scoring=sc)
+    for fn, (good, bad) in VAL_STR.items():
+        for nm in good + bad:
+            add(fn, name=nm)
+    for _ in range(30 * k):
+        m = rng.randint(1, 3)
+        items = [[{"id": j + 1, "dunder": False}, "fc"] for j in range(m)]
+        fault = rng.choice(["none", "none", "attr_none", "attr_tuple", "empty", "dup", "dunder",
+                            "shadow", "nonfc", "drop_one", "drop_all", "transformer"])
+        attr = "list"
+        if fault == "attr_none":
+            attr = "none"
+        elif fault == "attr_tuple":
+            attr = "tuple"
+        elif fault == "empty":
+            items = []
+        elif fault == "dup":
+            items.append([dict(items[0][0]), "fc"])
+        elif fault == "dunder":
+            rng.choice(items)[0]["dunder"] = True
+        elif fault == "shadow":
+            rng.choice(items)[0]["id"] = rng.choice([100, 101, 102])
+        elif fault == "nonfc":
+            rng.choice(items)[1] = "other"
+        elif fault == "transformer":
+            rng.choice(items)[1] = "tr"
+        elif fault == "drop_one":
+            items.append([{"id": 9, "dunder": False}, rng.choice(["drop", "nonedrop"])])
+        elif fault == "drop_all":
+            items = [[it[0], "drop"] for it in items]
+        add("check_forecasters", attr=attr, items=items, fault=fault)
+    for _ in range(30 * k):
+        m = rng.randint(1, 3)
+        items = [[{"id": j + 1, "dunder": False}, "tr"] for j in range(m)]
+        items[-1][1] = "fc"
+        fault = rng.choice(["none", "none", "empty", "dup", "dunder", "shadow", "last_tr",
+                            "last_other", "fc_middle", "other_middle", "drop_middle"])
+        if fault == "empty":
+            items = []
+        elif fault == "dup" and m >= 2:
+            items[-1][0]["id"] = items[0][0]["id"]
+        elif fault == "dunder":
+            rng.choice(items)[0]["dunder"] = True
+        elif fault == "shadow":
+            rng.choice(items)[0]["id"] = 100
+        elif fault == "last_tr":
+            items[-1][1] = "tr"
+        elif fault == "last_other":
+            items[-1][1] = "other"
+        elif fault == "fc_middle" and m >= 2:
+            items[0][1] = "fc"
+        elif fault == "other_middle" and m >= 2:
+            items[0][1] = "other"
+        elif fault == "drop_middle" and m >= 2:
+            items[0][1] = "drop"
+        add("check_steps", items=items, fault=fault)
+    return cases
+
+
+def _mk_index(kind, n, is_sorted, start=0):
+    import numpy as np
+    import pandas as pd
+    if kind == "range":
+        ix = pd.RangeIndex(start, start + n)
+    elif kind == "period":
+        ix = pd.period_range("2000-01", periods=n + start, freq="M")[start:]
+    elif kind == "datetime":
+        ix = pd.date_range("2000-01-01", periods=n + start, freq="D")[start:]
+    elif kind == "other":
+        ix = pd.timedelta_range("1 day", periods=n + start)[start:]
+    elif kind == "ndarray":
+        ix = np.arange(start, start + n)
+    else:
+        ix = pd.Index(np.arange(start, start + n))
+    if not is_sorted and n >= 2:
+        ix = ix[::-1]
+        if kind == "ndarray":
+            ix = ix.copy()
+    return ix
+
+
+def _mk_data(d, constant=False):
+    import numpy as np
+    import pandas as pd
+    n = d["n"]
+    vals = np.full(n, 3.0) if constant else (np.arange(n, dtype=float) * 1.5 + 2.0) % 7 + 1.0
+    c = d["cont"]
+    if c in ("array1", "array2", "list"):
+        return vals if c == "array1" else (np.column_stack([vals, vals]) if c == "array2"
+                                           else list(vals))
+    ix = _mk_index(d["idx"], n, d["sorted"], d.get("start", 0))
+    if c == "index":
+        return ix
+    if c == "series":
+        return pd.Series(vals, index=ix)
+    return pd.DataFrame({"a": vals, "b": vals + 1}, index=ix)
+
+
+def _eit(name):
+    import pandas as pd
+    return {None: None, "int": pd.Int64Index, "range": pd.RangeIndex, "period": pd.PeriodIndex}[name]
+
+
+def _mk_cv(name):
+    import numpy as np
+    from sktime.forecasting.model_selection import (
+        CutoffSplitter, ExpandingWindowSplitter, SingleWindowSplitter, SlidingWindowSplitter)
+    if name == "sliding_sww":
+        return SlidingWindowSplitter(fh=[1], window_length=2)
+    if name == "sliding_nosww":
+        return SlidingWindowSplitter(fh=[1], window_length=2, start_with_window=False)
+    if name == "expanding_nosww":
+        return ExpandingWindowSplitter(fh=[1], initial_window=2, start_with_window=False)
+    if name == "single":
+        return SingleWindowSplitter(fh=[1])
+    if name == "cutoff":
+        return CutoffSplitter(np.array([3]), fh=[1], window_length=2)
+    if name == "int":
+        return 3
+    if name == "kfold":
+        from sklearn.model_selection import KFold
+        return KFold(3)
+    return None
+
+
+def _mk_member(kind):
+    from sklearn.linear_model import LinearRegression
+    from sktime.forecasting.naive import NaiveForecaster
+    from sktime.transformations.series.detrend import Detrender
+    return {"fc": NaiveForecaster, "tr": Detrender, "other": LinearRegression,
+            "drop": lambda: "drop", "nonedrop": lambda: None}[kind]()
+
+
+def _validator(case):
+    fn = case["fn"]
+    desc = {}
+
+    def go():
+        if fn == "check_time_index":
+            from sktime.utils.validation.series import check_time_index
+            ix = _mk_data(case["d"])
+            check_time_index(ix, allow_empty=case["allow_empty"], enforce_index_type=_eit(case["eit"]))
+        elif fn == "check_series":
+            from sktime.utils.validation.series import check_series
+            z = _mk_data(case["d"])
+            desc["d"] = _describe(z)
+            return check_series(z, enforce_univariate=case["univariate"],
+                                allow_empty=case["allow_empty"], allow_numpy=case["allow_numpy"],
+                                enforce_index_type=_eit(case["eit"])) is z
+        elif fn == "check_y":
+            from sktime.utils.validation.forecasting import check_y
+            y = _mk_data(case["d"], constant=case["constant"])
+            desc["d"] = _describe(y)
+            check_y(y, allow_empty=case["allow_empty"], allow_constant=case["allow_constant"])
+        elif fn == "check_X":
+            from sktime.utils.validation.forecasting import check_X
+            x = _mk_data(case["d"])
+            desc["d"] = _describe(x)
+            check_X(x, allow_empty=case["allow_empty"], enforce_univariate=case["univariate"])
+        elif fn in ("check_y_X", "check_equal_time_index"):
+            from sktime.utils.validation.forecasting import check_y_X
+            from sktime.utils.validation.series import check_equal_time_index
+            y = _mk_data(case["d"])
+            X = None if case["X"] is None else _mk_data(case["X"])
+            desc["d"] = _describe(y)
+            desc["X"] = None if X is None else _describe(X)
+            if fn == "check_y_X":
+                check_y_X(y, X, allow_empty=case["allow_empty"])
+            elif X is None:
+                check_equal_time_index(y)
+            else:
+                check_equal_time_index(y, X)
+        elif fn == "check_cv":
+            from sktime.utils.validation.forecasting import check_cv
+            check_cv(_mk_cv(case["cv"]), enforce_start_with_window=case["enforce"])
+        elif fn == "check_sp":
+            from sktime.utils.validation.forecasting import check_sp
+            check_sp(pv_py(case["v"]))
+        elif fn == "check_scoring":
+            from sktime.performance_metrics.forecasting import MeanAbsolutePercentageError
+            from sktime.utils.validation.forecasting import check_scoring
+            check_scoring({"none": None, "metric": MeanAbsolutePercentageError(),
+                           "lambda": (lambda a, b: 0.0), "str": "mape", "int": 3}[case["scoring"]])
+        elif fn == "eval_strategy":
+            from sktime.forecasting.model_evaluation import evaluate
+            from sktime.forecasting.model_selection import ExpandingWindowSplitter
+            from sktime.forecasting.naive import NaiveForecaster
+            evaluate(NaiveForecaster(), ExpandingWindowSplitter(fh=[1], initial_window=6),
+                     _good_y(9), strategy=case["name"])
+        elif fn in ("reduce_strategy", "scitype"):
+            from sklearn.linear_model import LinearRegression
+            from sktime.forecasting.compose import make_reduction
+            kw = {"strategy": case["name"]} if fn == "reduce_strategy" else {"scitype": case["name"]}
+            make_reduction(LinearRegression(), window_length=2, **kw)
+        elif fn == "aggfunc":
+            from sktime.forecasting.compose import EnsembleForecaster
+            from sktime.forecasting.naive import NaiveForecaster
+            fc = EnsembleForecaster([("a", NaiveForecaster()), ("b", NaiveForecaster("mean"))],
+                                    aggfunc=case["name"])
+            fc.fit(_good_y(9), fh=[1, 2])
+            fc.predict()
+        elif fn == "check_forecasters":
+            from sktime.forecasting.compose import EnsembleForecaster
+            names = _names([it[0] for it in case["items"]],
+                           {100: "forecasters", 101: "n_jobs", 102: "aggfunc"})
+            members = [(nm, _mk_member(it[1])) for nm, it in zip(names, case["items"])]
+            attr = {"list": members, "none": None, "tuple": tuple(members)}[case["attr"]]
+            EnsembleForecaster(attr)._check_forecasters()
+        elif fn == "check_steps":
+            from sktime.forecasting.compose import TransformedTargetForecaster
+            names = _names([it[0] for it in case["items"]], {100: "steps"})
+            TransformedTargetForecaster([(nm, _mk_member(it[1])) for nm, it in
+                                         zip(names, case["items"])])._check_steps()
+        else:
+            raise AssertionError(fn)
+        return True
+    r = _verdict(go)
+    r.pop("result", None)
+    r["desc"] = desc
+    return r
+
+
+def _ix_ok(d, allow_empty, eit):
+    k = "int" if d["idx"] == "ndarray" else d["idx"]
+    return (k in ("int", "range", "period", "datetime") and (eit is None or eit == k)
+            and (d["sorted"] or d["n"] < 2) and (allow_empty or d["n"] >= 1))
+
+
+def _series_rule(d, univariate, allow_empty, allow_numpy, eit=None):
+    c = d["cont"]
+    if c == "list":
+        return False
+    if c == "array1":
+        return allow_numpy
+    if c == "array2":
+        return allow_numpy and not univariate
+    return _ix_ok(d, allow_empty, eit) and not (c == "frame" and univariate)
+
+
+def _same_labels(a, b):
+    """Do two generated pandas containers carry the same label sequence?"""
+    if a["n"] != b["n"]:
+        return False
+    if a["n"] == 0:
+        return True
+    ka, kb = ({"range": "int"}.get(x["idx"], x["idx"]) for x in (a, b))
+    if ka != kb:
+        return False
+    sa, sb = (x["sorted"] or x["n"] < 2 for x in (a, b))
+    return a.get("start", 0) == b.get("start", 0) and sa == sb
+
+
+def _members_rule(items, shadow, kinds_rule):
+    nm = [(it[0]["id"], it[0]["dunder"]) for it in items]
+    return (bool(nm) and len(set(nm)) == len(nm) and not any(d for _, d in nm)
+            and not any((i in shadow and not d) for i, d in nm) and kinds_rule([it[1] for it in items]))
+
+
+def _expect_validator(case):
+    """The property's rule for a direct validator call (the Python twin of ModelV.v)."""
+    fn = case["fn"]
+    if fn == "check_time_index":
+        return _ix_ok(case["d"], case["allow_empty"], case["eit"])
+    if fn == "check_series":
+        return _series_rule(case["d"], case["univariate"], case["allow_empty"], case["allow_numpy"],
+                            case["eit"])
+    if fn == "check_y":
+        d = case["d"]
+        ok = _series_rule(d, True, case["allow_empty"], False)
+        if ok and d["n"] == 0 and not case["allow_constant"]:
+            return None       # y.iloc[0] on an empty series: outside the validator's contract
+        const = case["constant"] or d["n"] == 1
+        return ok and (case["allow_constant"] or not const)
+    if fn == "check_X":
+        return _series_rule(case["d"], case["univariate"], case["allow_empty"], False)
+    if fn in ("check_y_X", "check_equal_time_index"):
+        y, X = case["d"], case["X"]
+        if fn == "check_y_X":
+            if not _series_rule(y, True, case["allow_empty"], False):
+                return False
+            if X is None:
+                return True
+            if not _series_rule(X, False, False, False):
+                return False
+        else:
+            if y["cont"] not in ("series", "frame") or (
+                    X is not None and X["cont"] not in ("series", "frame")):
+                return None   # .index of an array / list: AttributeError, not this validator's job
+            if X is None:
+                return _ix_ok(y, False, None)
+        return _ix_ok(y, False, None) and _ix_ok(X, False, None) and _same_labels(y, X)
+    if fn == "check_cv":
+        cv = case["cv"]
+        if cv in ("int", "kfold", "none"):
+            return False
+        return not (case["enforce"] and cv in ("sliding_nosww", "expanding_nosww"))
+    if fn == "check_sp":
+        return _posint(case["v"], True)
+    if fn == "check_scoring":
+        return case["scoring"] in ("none", "metric", "lambda")
+    if fn in VAL_STR:
+        return case["name"] in VAL_STR[fn][0]
+    if fn == "check_forecasters":
+        if case["attr"] != "list":
+            return False
+        return _members_rule(case["items"], {100, 101, 102},
+                             lambda ks: any(k not in ("drop", "nonedrop") for k in ks)
+                             and all(k in ("fc", "drop", "nonedrop") for k in ks))
+    if fn == "check_steps":
+        return _members_rule(case["items"], {100},
+                             lambda ks: ks[-1] == "fc" and all(k == "tr" for k in ks[:-1]))
+    return None
+
+
+MK = {"fc": "MForecaster", "tr": "MTransformer", "other": "MOther", "drop": "MDrop",
+      "nonedrop": "MDrop"}
+
+
+def _members_coq(items):
+    return clist(["({| nid := %s; has_dunder := %s |}, %s)" % (
+        cz(2 * it[0]["id"] + (1 if it[0]["dunder"] else 0)), cbool(it[0]["dunder"]), MK[it[1]])
+        for it in items])
+
+
+def _gen_desc(d, constant=False):
+    """Description of generated data without running anything (arrays / lists / indices)."""
+    n = d["n"]
+    return {"cont": d["cont"], "len": n, "sorted": bool(d["sorted"] or n < 2), "idx": d["idx"],
+            "lab": "%s/%s/%s" % ("int" if d["idx"] == "range" else d["idx"], d.get("start", 0)
+                                 if n else 0, (n, bool(d["sorted"] or n < 2))),
+            "const": bool(constant and n >= 1) or n == 1}
+
+
+def _validator_coq(case, out):
+    fn = case["fn"]
+    labs = {}
+    eit = lambda: copt(case["eit"], lambda k: IDXK[k])   # noqa: E731
+    if fn == "check_time_index":
+        return "QTimeIndex %s %s %s" % (_ixdesc(_gen_desc(case["d"]), labs),
+                                       cbool(case["allow_empty"]), eit())
+    if fn == "check_series":
+        return "QSeries %s %s %s %s %s" % (
+            _series(_gen_desc(case["d"]), labs), cbool(case["univariate"]),
+            cbool(case["allow_empty"]), cbool(case["allow_numpy"]), eit())
+    if fn == "check_y":
+        if _expect_validator(case) is None:
+            return None
+        return "QY %s %s %s" % (_series(_gen_desc(case["d"], case["constant"]), labs),
+                               cbool(case["allow_empty"]), cbool(case["allow_constant"]))
+    if fn == "check_X":
+        return "QX %s %s %s" % (_series(_gen_desc(case["d"]), labs), cbool(case["allow_empty"]),
+                               cbool(case["univariate"]))
+    if fn in ("check_y_X", "check_equal_time_index"):
+        if _expect_validator(case) is None:
+            return None
+        y = _series(_gen_desc(case["d"]), labs)
+        X = None if case["X"] is None else _series(_gen_desc(case["X"]), labs)
+        if fn == "check_y_X":
+            return "QYX %s %s %s" % (y, "None" if X is None else "(Some %s)" % X,
+                                    cbool(case["allow_empty"]))
+        return "QEqual %s %s" % (y, clist([] if X is None else [X]))
+    if fn == "check_cv":
+        cv = {"sliding_sww": "(CvSplitter true true)", "sliding_nosww": "(CvSplitter true false)",
+              "expanding_nosww": "(CvSplitter true false)", "single": "(CvSplitter false false)",
+              "cutoff": "(CvSplitter false false)"}.get(case["cv"], "CvOther")
+        return "QCv %s %s" % (cv, cbool(case["enforce"]))
+    if fn == "check_sp":
+        return "QSp %s" % pv_coq(case["v"])
+    if fn == "check_scoring":
+        return "QScoring %s" % {"none": "None", "metric": "(Some true)", "lambda": "(Some true)"}.get(
+            case["scoring"], "(Some false)")
+    if fn in VAL_STR:
+        return "%s %s%%string" % ({"eval_strategy": "QEvalStrategy",
+                                  "reduce_strategy": "QReduceStrategy", "scitype": "QScitype",
+                                  "aggfunc": "QAggfunc"}[fn], cstr(case["name"]))
+    if fn == "check_forecasters":
+        attr = {"none": "FcsNone", "tuple": "FcsNotList"}.get(
+            case["attr"], "(FcsList %s)" % _members_coq(case["items"]))
+        return "QForecasters %s [200; 202; 204]" % attr
+    if fn == "check_steps":
+        return "QSteps %s [200]" % _members_coq(case["items"])
+    return None
+
 # ------------------------------------------------------------------------------------------------
 # model side
 
-CASES_HEADER = """From Coq Require Import ZArith List Bool.
-Require Import SkV.Lib.Base SkV.C01.Model SkV.C20.Model SkV.C20.Cases.
+CASES_HEADER = """From Coq Require Import String ZArith List Bool.
+Require Import SkV.Lib.Base SkV.C01.Model SkV.C20.Model SkV.C20.ModelV SkV.C20.Chain SkV.C20.Cases.
 Import ListNotations.
 Open Scope Z_scope.
 """
@@ -943,6 +1593,11 @@ def coq_case(case, out):
     if k == "fh":
         o = "None" if out["verdict"] != "accept" else "(Some %s)" % czlist(out["fh_steps"])
         return "TFh %s %s" % (fh_coq(case["f"]), o)
+    if k == "matrix":
+        return _matrix_coq(case, out, acc)
+    if k == "validator":
+        q = _validator_coq(case, out)
+        return None if q is None else "TValidator (%s) %s" % (q, acc)
     return None
 
 
@@ -966,6 +1621,9 @@ def coq_model_term(case):
         kinds = clist([{"tr": "KTransformer", "fc": "KForecaster", "other": "KOther"}[x]
                        for x in case["kinds"]])
         return "pipeline_ok %s [200] %s" % (_cnames(case["names"]), kinds)
+    if k == "validator":
+        q = _validator_coq(case, None)
+        return "tt" if q is None else "vquery_ok (%s)" % q
     return "tt"
 
 
